@@ -305,6 +305,50 @@ func checkSlice(s, snap []int) {
 			}
 		}
 	}
+	// ---- DistinctFunc with relations that are NOT equivalences (a tolerance, a successor test). "First
+	// occurrences" then has more than one reading (compare with the kept values or with all earlier
+	// values; which argument comes first), so only what every reading implies is required: the result is
+	// a subsequence of the input that keeps the first element, no two kept elements are related both
+	// ways, and every dropped element is related (one way or the other) to an earlier input element.
+	for qi, rel := range []func(a, b int) bool{func(a, b int) bool { return a-b <= 1 && b-a <= 1 }, func(a, b int) bool { return a+1 == b }} {
+		var gotT []E
+		if call("DistinctFunc", snap, func() { gotT = slices.DistinctFunc(ts, func(a, b E) bool { return rel(a.V, b.V) }) }) {
+			bad := ""
+			kept := map[int]bool{}
+			for i, g := range gotT {
+				if g.P < 0 || g.P >= len(snap) || snap[g.P] != g.V || (i > 0 && gotT[i-1].P >= g.P) {
+					bad = "is not a subsequence of the input"
+					break
+				}
+				kept[g.P] = true
+				for _, h := range gotT[:i] {
+					if rel(h.V, g.V) && rel(g.V, h.V) {
+						bad = fmt.Sprintf("keeps both %d and %d, which the relation holds for in both directions", h.V, g.V)
+					}
+				}
+			}
+			if bad == "" && len(snap) > 0 && !kept[0] {
+				bad = "drops the first element"
+			}
+			for i := range snap {
+				if bad != "" || kept[i] {
+					continue
+				}
+				related := false
+				for _, u := range snap[:i] {
+					if rel(u, snap[i]) || rel(snap[i], u) {
+						related = true
+					}
+				}
+				if !related {
+					bad = fmt.Sprintf("drops element %d (= %d), which is related to no earlier element", i, snap[i])
+				}
+			}
+			if bad != "" {
+				fail("DistinctFunc|result", snap, "DistinctFunc(non-equivalence relation %d) = %v: %s", qi, gotT, bad)
+			}
+		}
+	}
 	// ---- Distinct / DistinctFunc
 	{
 		var want []int
